@@ -99,7 +99,9 @@ def run(R):
     R.assume += ["amounts stay far below the 256-bit / 315-bit limits of sdk.Int / sdk.Dec (overflow panics of Dec are modelled, those of Int are not)",
                  "underlying denominations are unique in a basket (CreateBasket/EditBasket reject duplicates; modelled) and weights are positive in generated configurations",
                  "block times are unix nanoseconds (sub-second parts, several messages per block time); limits periods stay below 2^33 s",
-                 "holders act on basket 1; the other baskets (ids 2..) are funded through the real msg server before the history starts and are afterwards touched only by the create / withdraw-surplus proposals; the staking-reward claim at the end of BasketWithdrawSurplus is not modelled (the module account holds no delegation in the harness)"]
+                 "holders act on basket 1; the other baskets (ids 2..) are funded through the real msg server before the history starts and are afterwards touched only by the create / withdraw-surplus proposals; the staking-reward claim at the end of BasketWithdrawSurplus is modelled for rewards the harness makes pending for the module account (x/multistaking IncreaseDelegatorRewards + funded fee collector)",
+                 "genesis round trip = ExportGenesis, wipe of the module store, InitGenesis of the basket module only (bank state kept)",
+                 "the spec checker's own record of accepted actions forgets, at an observed end block, what lies further back than the period then in force"]
     ext, store, books = writers(REPO_PATH())
     R.oblige("pinned writers: references to the basket keeper outside x/basket", ext == PINNED_EXTERNAL, "now: %s" % json.dumps(ext))
     R.oblige("pinned writers: functions writing the basket store", store == PINNED_STORE_WRITERS, "now: %s" % json.dumps(store))
